@@ -72,6 +72,8 @@ impl builtins::Command for ExecCommand {
             self.empty_environment,
         )?;
 
+        #[cfg(feature = "verif-hooks")]
+        brush_core::verif::sim_exec(&context, &self.args[0], &self.args[1..]);
         let exec_error = cmd.exec();
 
         if exec_error.kind() == std::io::ErrorKind::NotFound {
